@@ -298,7 +298,7 @@ def run(ctx):
     n = ctx.n(200, 1500)
     nperm = 3 if ctx.quick else 5
     # maintenance calls (verify / cleanup / refresh / clone) in between: they prune and rebuild the indices the update reads
-    opts = H.Opts(max_ops=25, maint=True, allow_raise=False)
+    opts = H.Opts(max_ops=25, maint=True, allow_raise=False, fresh=True)
 
     def body(case):
         if not case["ops"] or not case.get("observed"):
